@@ -8,6 +8,7 @@ mkdir -p .build/bin evidence
 (cd harness && go build -tags verif -o ../.build/bin/vcheck ./cmd/vcheck)
 if [ -d harness/cmd/vcheckmc ] && ls harness/cmd/vcheckmc/*.go >/dev/null 2>&1; then
   (cd harness && go build -tags verif -o ../.build/bin/midicat ./cmd/midicat)
+  (cd harness && PATH="$PWD/../.build/bin:$PATH" go build -tags verif -o ../.build/bin/openprobe ./cmd/openprobe)
   (cd harness && PATH="$PWD/../.build/bin:$PATH" go build -tags verif -race -o ../.build/bin/vcheckmc ./cmd/vcheckmc)
 fi
 echo setup ok
